@@ -61,6 +61,33 @@ def snap(o) -> tuple:
     return tuple((k, pfreeze(v)) for k, v in sorted(vars(o).items()))
 
 
+OBSERVABLE_ATTRS = {'contract', 'trump', 'declarer', 'dummy', 'leader', 'active_player', 'trick_num', 'playing_history', 'used_cards', 'taken_tricks',
+                    'hands', '_trick_cards', '_player', '_hand', '_dummy_hand'}
+
+
+def _observable_diff(before: tuple, after: tuple) -> bool:
+    """Do two attribute snapshots differ in an attribute a caller can observe (through the public attributes, properties and the
+    playable-set methods)?  Attributes outside this list are private bookkeeping."""
+    b, a = dict(before), dict(after)
+    return any(b.get(k) != a.get(k) for k in OBSERVABLE_ATTRS if k in b or k in a)
+
+
+def pub_snap(o) -> tuple:
+    """Everything a caller can observe of a play engine: the public view, the hands it knows, the played cards, and the playable set
+    of a probe hand (which reveals the cards of the current trick)."""
+    hands = None
+    if isinstance(o, PlayingPhaseWithHands):
+        hands = tuple(pfreeze(o.hands[p]) for p in Player)
+    elif isinstance(o, ObservedPlayingPhase):
+        hands = (pfreeze(o.hand), pfreeze(o.dummy_hand))
+    probe = {CARDS[i] for i in range(0, 52, 3)}
+    try:
+        av = pfreeze(o.current_available_cards(probe))
+    except Exception as e:  # noqa
+        av = type(e).__name__
+    return (public_view(o), hands, pfreeze(o.used_cards), av)
+
+
 def public_view(o: PlayingPhase) -> tuple:
     """What every replica must agree on."""
     return (pfreeze(o.contract), o.declarer._name_, o.dummy._name_, o.leader._name_,
@@ -319,7 +346,13 @@ class Rig:
                         self._after_damage()
                     self.dead_obs.add(seat_o)          # this replica has left the common history; the others go on
                     break
-                if snap(o) != before:
+                after = snap(o)
+                if after != before and not _observable_diff(before, after):
+                    # only private attributes changed (a cache, a counter): nothing a caller can observe - recorded, not judged; the
+                    # object stays in the play-out, so a later effect of the change would still meet the oracles
+                    c.inc('private_state_changed_without_observable_effect')
+                    before = after
+                elif after != before:
                     c.violate(f'C05:refused-but-changed:{kind}:{"table" if seat_o is None else "observer"}',
                               f'{self.where()}: {name} refused the {kind} play of card {card} by {s} but its state changed', self.rp({'fault': [kind, s, card, name]}))
                     if seat_o is None:
